@@ -7,13 +7,15 @@ from pyvc.values import *   # noqa
 
 CONTRACTS = []
 REFUTED_ON_THE_UNCHANGED_TREE = []      # not loaded: genuine violations of the property (see the notes of each entry)
-CLASS_SPECS = {}
+CLASS_SPECS = {'Response': {'headers': Ref('Headers'), 'status_code': Int, 'reason': Str, 'raw': Ref('RawResponse'),
+                            'content': Ref('bytes'), 'text': Str},
+               'RawResponse': {'version': Int}}
 LEMMAS = []
 
 H = 'pywbem/_cim_http.py::'
 BYTES = Ref('bytes')
 CONN = Obj('WBEMConnection', _url=Str, _creds=Opt(TupleOf(Str, Str)), _timeout=Opt(Int), _conn_id=Opt(Str),
-           _operation_recorders=ListOf(('ref', 'BaseOperationRecorder')), session=Ref('Session'))
+           operation_recorders=ListOf(('ref', 'BaseOperationRecorder')), session=Ref('Session'))
 HDRS = Rec(CIMOperation=Str, CIMMethod=Str, CIMObject=Str)
 
 stage_req_c = Contract('pywbem/_recorder.py::BaseOperationRecorder.stage_http_request', trusted=True, raises={},
@@ -22,11 +24,21 @@ stage_req_c = Contract('pywbem/_recorder.py::BaseOperationRecorder.stage_http_re
 stage_resp1_c = Contract('pywbem/_recorder.py::BaseOperationRecorder.stage_http_response1', trusted=True, raises={})
 stage_resp2_c = Contract('pywbem/_recorder.py::BaseOperationRecorder.stage_http_response2', trusted=True, raises={})
 
+b64_c = Contract('external::base64.b64encode', sig=['s'], returns=BYTES, trusted=True, raises={},
+                 ensures=[('base64-text-is-ASCII', 'valid_utf8(result)')],
+                 notes='A-LIB: base64.b64encode(bytes) returns ASCII bytes and does not raise')
+post_c = Contract('external::Session.post', sig=['self', 'url', 'data=None', 'headers=None', 'timeout=None'],
+                  returns=Ref('Response'), trusted=True,
+                  raises={'requests.exceptions.RequestException': Raises(), 'urllib3.exceptions.HTTPError': Raises()})
+
 CONTRACTS.append(Contract(
     H + 'wbem_request',
     params={'conn': CONN, 'req_data': Str, 'cimxml_headers': HDRS, 'target_type': Str},
     callees={'stage_http_request': stage_req_c, 'stage_http_response1': stage_resp1_c,
-             'stage_http_response2': stage_resp2_c},
+             'stage_http_response2': stage_resp2_c, 'base64.b64encode': b64_c, 'post': post_c},
+    loops={1: LoopSpec(target='recorder', types={'recorder': Ref('BaseOperationRecorder')}),
+           2: LoopSpec(target='recorder', types={'recorder': Ref('BaseOperationRecorder')}),
+           3: LoopSpec(target='recorder', types={'recorder': Ref('BaseOperationRecorder')})},
     ensures=[],
     raises={k: Raises() for k in ('ConnectionError', 'TimeoutError', 'AuthError', 'HTTPError', 'HeaderParseError')},
 ))
